@@ -34,7 +34,7 @@ RULE = ('plan = 2-6 objects (seven stored types; values empty/1 byte/'
         'client of a seeded version. Non-trivial: an object with >= 2 '
         'optional fields was read back after >= 1 restart. Distinct = '
         'trace digest.')
-PROBES = ['wrapped_get_then_commit', 'proxy_register_with_template', 'group_changed_on_one_object',
+PROBES = ['destroy_of_a_stored_object', 'wrapped_get_then_commit', 'proxy_register_with_template', 'group_changed_on_one_object',
           'restart', 'kill_restart', 'wrapped_key_roundtrip',
           'split_key_roundtrip', 'non_ascii_name', 'empty_mask',
           'full_mask', 'large_value', 'server_generated', 'read_under_2_0',
@@ -188,6 +188,9 @@ def generate(rng, tier, index):
     n = r.randint(2, 6)
     k = 0
     total = r.randint(6, 16)
+    # the other client's view of its own objects lives as long as the plan:
+    # its later requests activate, rename and destroy what it stored earlier
+    octx = gen.Ctx(r, nactors=2)
     for i in range(total):
         x = r.random()
         ver = r.choice(gen.VERSIONS)
@@ -242,20 +245,31 @@ def generate(rng, tier, index):
                           'index': r.choice([0, 0, 1]),
                           'how': r.choice(['modify', 'modify', 'delete']),
                           'to': 'grp-%d' % r.randrange(1000)})
-        elif x < 0.45:
+        elif x < 0.43:
             steps.append({'do': 'restart'})
+        elif x < 0.47:
+            if octx.objs and r.random() < 0.5:
+                # the other client destroys one of its objects
+                o = octx.objs.pop(r.randrange(len(octx.objs)))
+                steps.append({'do': 'other', 'req': {
+                    'actor': 1, 'ver': [1, 2], 'items': [
+                        {'op': 'Destroy', 'uid': '@' + o['label']}]}})
+            elif labels:
+                lab = labels.pop(r.randrange(len(labels)))
+                steps.append({'do': 'destroy', 'label': lab})
+            else:
+                steps.append({'do': 'restart'})
         elif x < 0.58:
             steps.append({'do': 'kill_restart',
                           'k': r.choice([0, 1, 3, 8, 20, 29, 30, 40]),
                           'seed': r.randrange(1 << 30)})
         elif x < 0.8:
             # another client's traffic (independent builder)
-            ctx = gen.Ctx(r, nactors=2)
             steps.append({'do': 'other', 'req': gen.gen_request(
-                ctx, actor=1, weights={'create': 3, 'register': 3,
-                                       'read': 2, 'misc': 1, 'life': 1,
-                                       'use': 0, 'attr': 0, 'derive': 0,
-                                       'keypair': 0})})
+                octx, actor=1, weights={'create': 3, 'register': 3,
+                                        'read': 2, 'misc': 1, 'life': 3,
+                                        'use': 0, 'attr': 2, 'derive': 0,
+                                        'keypair': 1})})
         else:
             steps.append({'do': 'activate', 'label': r.choice(labels)
                           if labels else 'c1'})
@@ -708,6 +722,14 @@ def execute(plan):
                         e['state'] = 2
                 elif do == 'other':
                     W.request(copy.deepcopy(st['req']))
+                elif do == 'destroy':
+                    # one stored object goes away: every other one must
+                    # still come back exactly
+                    e = known.get(st['label'])
+                    if e is not None and e.get('state', 1) == 1:
+                        cl((1, 2)).destroy(e['uid'])
+                        known.pop(st['label'], None)
+                        probes['destroy_of_a_stored_object'] += 1
                 elif do == 'restart':
                     W.restart()
                     restarts_seen += 1
